@@ -240,8 +240,8 @@ def run(F, rep):
                         det = 'removeParent is applied to the argument `%s`, not to the element found by the lookup: with a structurally equal look-alike the erased child keeps its parent and the argument loses its own' % rt
                 rep.check(good, 'C09.P3', key, f.where(n), det, det)
             elif fn == 'clear':
-                loops = [l for l in f.walk() if l.get('k') == 'RangeFor' and render(role(l, 'range')) == render(r)]
-                good = any(any(c.get('k') == 'Call' and c.get('fn') == 'removeParent' for c in walk(l)) and f.cfg().node_dominates(role(l, 'range'), n) for l in loops)
+                from engines import element_loops
+                good = any(any(c.get('k') == 'Call' and c.get('fn') == 'removeParent' for c in walk(l)) and f.cfg().node_dominates(hdr, n) for l, hdr in element_loops(f, render(r)))
                 rep.check(good, 'C09.P4', '%s|%s.clear' % (f.short, r['n']), f.where(n), '%s is cleared without removeParent() on every element first' % r['n'], 'loop of removeParent precedes clear')
     if sites < 20:
         raise AnalysisBroken('container mutation sites: %d found, 25 confirmed' % sites)
